@@ -236,12 +236,12 @@ theorem patternTok_suffix (s b rest : List Char) (h : patternTok s = some (b, re
   · rename_i q r
     split at h
     · split at h
-      · rename_i x rest' hd
+      · rename_i p hp
         split at h
-        · simp only [Option.some.injEq, Prod.mk.injEq] at h
-          have := List.dropWhile_suffix (· != '"') (l := r)
-          rw [hd] at this
-          rw [← h.2]; exact (List.suffix_cons x rest').trans (this.trans (List.suffix_cons q r))
+        · simp only [Option.some.injEq] at h
+          have := strBody_suffix _ _ p.1 p.2 (by rw [hp])
+          rw [h] at this
+          exact this.trans (List.suffix_cons q r)
         · cases h
       · cases h
     · cases h
